@@ -5,13 +5,25 @@
    State = what the property talks about: which triggers are registered for which
    phase (in registration order), which have been removed, which have run and in
    which order, which Deferreds returned by before-triggers are still unfired.
-   Triggers are numbered in registration order (ids 1..nT); a trigger's behaviour
-   when called is its kind:
-       "plain"   returns None            "raise"  raises an exception
-       "defer"   returns a Deferred that the environment fires later (callback or errback)
-       "fired"   returns an already fired Deferred
-   One action per public call outcome.  A public call runs triggers synchronously;
-   its observable is the sequence of trigger ids it ran.
+   Triggers are numbered in registration order (ids 1..nT).  A trigger's behaviour
+   when called is its kind, a record [ret, acts]:
+     ret   "plain" returns None, "raise" raises, "defer" returns a Deferred that the
+           environment fires later (callback or errback), "fired" returns a fired Deferred
+     acts  what the trigger does, while it runs, to the event it belongs to, before it
+           returns/raises: a sequence of
+             [op |-> "add", ph, ret, more]  register a new trigger (kind [ret, more]) for phase ph
+             [op |-> "rm", h]               remove trigger h (if such a trigger was ever registered)
+           (all act records carry the fields op, ph, ret, h, more; unused ones are "-", 0, <<>>).
+   One action per public call outcome.  A public call runs triggers synchronously; its
+   observable is the sequence of trigger ids it ran (ran) and what the triggers' own
+   registrations/removals reported (sub).
+
+   Registration while the event is firing (the property: "for any registration and
+   removal ... every remaining trigger exactly once ... in registration order"):
+   a trigger registered for the phase that is running, or for a later phase, runs in
+   this firing, after the earlier-registered triggers of that phase; a trigger
+   registered for a phase that is already over stays registered for the next firing;
+   a pending trigger removed by a running trigger does not run.
 
    Where the property is silent the specification is nondeterministic: the result of
    removing a trigger that is no longer registered (the code raises ValueError, or
@@ -22,7 +34,7 @@ EXTENDS Naturals, Sequences, FiniteSets
 
 VARIABLES cfg,      \* [api |-> "raw" | "reactor"]   (which public API the execution used)
           before, during, after,   \* registered, not yet run: sequences of trigger ids
-          kind,     \* sequence: kind[id]
+          kind,     \* sequence: kind[id] = [ret, acts]
           phase,    \* sequence: phase[id] \in {"before","during","after"}
           nT,       \* triggers registered so far
           state,    \* "Base" | "Waiting" (before-phase done, Deferreds outstanding)
@@ -36,7 +48,8 @@ VARIABLES cfg,      \* [api |-> "raw" | "reactor"]   (which public API the execu
 vars == <<cfg, before, during, after, kind, phase, nT, state, pend, loose, ran, cur, removed, last>>
 
 Phases == {"before", "during", "after"}
-Kinds  == {"plain", "raise", "defer", "fired"}
+Rets   == {"plain", "raise", "defer", "fired"}
+K(r)   == [ret |-> r, acts |-> <<>>]            \* a trigger that does nothing to the event
 
 InitWith(c) ==
     /\ cfg = c
@@ -48,12 +61,15 @@ InitWith(c) ==
 
 Range(s) == {s[i] : i \in 1..Len(s)}
 Without(s, x) == SelectSeq(s, LAMBDA y : y # x)
-Defers(s) == {s[i] : i \in {j \in 1..Len(s) : kind[s[j]] = "defer"}}
+Defers(s) == {s[i] : i \in {j \in 1..Len(s) : kind[s[j]].ret = "defer"}}
 Registered == Range(before) \cup Range(during) \cup Range(after)
 
-(* addTrigger / addSystemEventTrigger: always succeeds, in any state. *)
+PhaseNo(ph) == IF ph = "before" THEN 1 ELSE IF ph = "during" THEN 2 ELSE 3
+WellFormed(k) == k.ret \in Rets      \* (acts are interpreted below; any sequence of act records is a behaviour)
+
+(* addTrigger / addSystemEventTrigger from outside a firing call: always succeeds, in any state. *)
 Add(ph, k) ==
-    /\ ph \in Phases /\ k \in Kinds
+    /\ ph \in Phases /\ WellFormed(k)
     /\ nT' = nT + 1
     /\ kind' = Append(kind, k) /\ phase' = Append(phase, ph)
     /\ before' = IF ph = "before" THEN Append(before, nT + 1) ELSE before
@@ -78,57 +94,104 @@ RemoveGone(h, r) ==
     /\ last' = [e |-> "remove", h |-> h, res |-> r]
     /\ UNCHANGED <<cfg, before, during, after, kind, phase, nT, state, pend, loose, ran, cur, removed>>
 
+-----------------------------------------------------------------------------
+(* Running triggers.  A run works on a record st of everything a running trigger can
+   change: the three lists, kind/phase/nT (new registrations), removed, and what the
+   call has observed so far: ran, sub (results of the triggers' own registrations and
+   removals), waits / ign (Deferreds returned by before / other triggers), late (ids
+   registered for a phase that was already over). *)
+StOf == [before |-> before, during |-> during, after |-> after, kind |-> kind, phase |-> phase,
+         nT |-> nT, removed |-> removed, ran |-> <<>>, sub |-> <<>>, waits |-> {}, ign |-> {}, late |-> {}]
+
+RECURSIVE ApplyActs(_, _, _, _)
+ApplyActs(st, by, acts, running) ==      \* running = the phase whose triggers are being run
+    IF acts = <<>> THEN st
+    ELSE LET a == Head(acts)
+             id == st.nT + 1
+             reg == Range(st.before) \cup Range(st.during) \cup Range(st.after)
+             st2 ==
+               IF a.op = "add" THEN
+                   [st EXCEPT ![a.ph] = Append(@, id),
+                              !.kind = Append(@, [ret |-> a.ret, acts |-> a.more]),
+                              !.phase = Append(@, a.ph),
+                              !.nT = id,
+                              !.late = IF PhaseNo(a.ph) < PhaseNo(running) THEN @ \cup {id} ELSE @,
+                              !.sub = Append(@, [by |-> by, op |-> "add", x |-> id, res |-> "ok"])]
+               ELSE IF a.h \in reg THEN
+                   [st EXCEPT !.before = Without(@, a.h), !.during = Without(@, a.h), !.after = Without(@, a.h),
+                              !.removed = @ \cup {a.h},
+                              !.sub = Append(@, [by |-> by, op |-> "rm", x |-> a.h, res |-> "ok"])]
+               ELSE [st EXCEPT !.sub = Append(@, [by |-> by, op |-> "rm", x |-> a.h,
+                                                   res |-> IF a.h \in 1..st.nT THEN "gone" ELSE "nohandle"])]
+         IN ApplyActs(st2, by, Tail(acts), running)
+
+RECURSIVE RunList(_, _)
+RunList(st, which) ==        \* run the triggers of one phase until none is left (new ones included)
+    IF st[which] = <<>> THEN st
+    ELSE LET t == Head(st[which])
+             st1 == [st EXCEPT ![which] = Tail(@), !.ran = Append(@, t)]
+             st2 == ApplyActs(st1, t, st.kind[t].acts, which)
+             st3 == IF st.kind[t].ret = "defer"
+                    THEN (IF which = "before" THEN [st2 EXCEPT !.waits = @ \cup {t}] ELSE [st2 EXCEPT !.ign = @ \cup {t}])
+                    ELSE st2
+         IN RunList(st3, which)
+
+RunRest(st) == RunList(RunList(st, "during"), "after")
+
+\* what removal of a no longer registered trigger by a running trigger reports is free (as for RemoveGone)
+SubMatches(pred, logged) ==
+    /\ Len(pred) = Len(logged)
+    /\ \A i \in 1..Len(pred) :
+          /\ pred[i].by = logged[i].by /\ pred[i].op = logged[i].op /\ pred[i].x = logged[i].x
+          /\ IF pred[i].res = "gone" THEN logged[i].res \in {"ok", "ValueError"} ELSE pred[i].res = logged[i].res
+
+Commit(st) ==      \* the part of a run's result that is state
+    /\ before' = st.before /\ during' = st.during /\ after' = st.after
+    /\ kind' = st.kind /\ phase' = st.phase /\ nT' = st.nT /\ removed' = st.removed
+    /\ ran' = ran \o st.ran
+
 (* fireEvent / fireSystemEvent: all before-triggers in registration order; if none of
    them returned an unfired Deferred, the during- and then the after-triggers follow
    in the same call.  Exceptions raised by triggers do not escape and stop nothing. *)
 Fire ==
     /\ state = "Base"
-    /\ LET waitFor == Defers(before)
-           now == IF waitFor = {} THEN before \o during \o after ELSE before
-       IN /\ pend' = waitFor
-          /\ state' = IF waitFor = {} THEN "Base" ELSE "Waiting"
-          /\ before' = <<>>
-          /\ during' = IF waitFor = {} THEN <<>> ELSE during
-          /\ after'  = IF waitFor = {} THEN <<>> ELSE after
-          /\ loose' = IF waitFor = {} THEN loose \cup Defers(during \o after) ELSE loose
-          /\ ran' = ran \o now
-          /\ cur' = now
-          /\ last' = [e |-> "fire", res |-> "ok", ran |-> now, fin |-> (waitFor = {})]
-    /\ UNCHANGED <<cfg, kind, phase, nT, removed>>
+    /\ LET s1 == RunList(StOf, "before")
+           st == IF s1.waits = {} THEN RunRest(s1) ELSE s1
+       IN /\ Commit(st)
+          /\ pend' = s1.waits
+          /\ state' = IF s1.waits = {} THEN "Base" ELSE "Waiting"
+          /\ loose' = loose \cup st.ign
+          /\ cur' = st.ran
+          /\ last' = [e |-> "fire", res |-> "ok", ran |-> st.ran, sub |-> st.sub, fin |-> (s1.waits = {}), late |-> st.late]
+    /\ UNCHANGED cfg
 
 (* The environment fires (callback or errback) the Deferred returned by before-trigger d.
    The last one to fire lets the during- and after-triggers run, inside that call. *)
 FireDeferred(d, how) ==
     /\ d \in pend /\ how \in {"ok", "err"}
     /\ LET left == pend \ {d}
-           now == IF left = {} THEN during \o after ELSE <<>>
-       IN /\ pend' = left
+           st == IF left = {} THEN RunRest(StOf) ELSE StOf
+       IN /\ Commit(st)
+          /\ pend' = left
           /\ state' = IF left = {} THEN "Base" ELSE "Waiting"
-          /\ during' = IF left = {} THEN <<>> ELSE during
-          /\ after'  = IF left = {} THEN <<>> ELSE after
-          /\ loose' = IF left = {} THEN loose \cup Defers(during \o after) ELSE loose
-          /\ ran' = ran \o now
-          /\ cur' = cur \o now
-          /\ last' = [e |-> "fired", d |-> d, how |-> how, res |-> "ok", ran |-> now, fin |-> (left = {})]
-    /\ UNCHANGED <<cfg, before, kind, phase, nT, removed>>
+          /\ loose' = loose \cup st.ign
+          /\ cur' = cur \o st.ran
+          /\ last' = [e |-> "fired", d |-> d, how |-> how, res |-> "ok", ran |-> st.ran, sub |-> st.sub,
+                      fin |-> (left = {}), late |-> st.late]
+    /\ UNCHANGED cfg
 
 (* Deferreds returned by during/after triggers are ignored: firing one runs nothing. *)
 FireLoose(d, how) ==
     /\ d \in loose /\ how \in {"ok", "err"}
     /\ loose' = loose \ {d}
-    /\ last' = [e |-> "fired", d |-> d, how |-> how, res |-> "ok", ran |-> <<>>, fin |-> FALSE]
+    /\ last' = [e |-> "fired", d |-> d, how |-> how, res |-> "ok", ran |-> <<>>, sub |-> <<>>, fin |-> FALSE, late |-> {}]
     /\ UNCHANGED <<cfg, before, during, after, kind, phase, nT, state, pend, ran, cur, removed>>
 
-Next == \/ \E ph \in Phases, k \in Kinds : Add(ph, k)
-        \/ \E h \in 1..nT : RemoveOk(h)
-        \/ \E h \in 1..nT, r \in {"ok", "ValueError"} : RemoveGone(h, r)
-        \/ Fire
-        \/ \E d \in pend, how \in {"ok", "err"} : FireDeferred(d, how)
-        \/ \E d \in loose, how \in {"ok", "err"} : FireLoose(d, how)
+\* (the design spec has no Next of its own: kinds are an unbounded space; see ThreePhaseMC / ThreePhaseSim)
 
 -----------------------------------------------------------------------------
 (* The property, as invariants over the run history. *)
-PhaseNo(id) == IF phase[id] = "before" THEN 1 ELSE IF phase[id] = "during" THEN 2 ELSE 3
+PhaseOf(id) == PhaseNo(phase[id])
 
 ExactlyOnce ==      \* no trigger runs twice (over all firings)
     \A i, j \in 1..Len(ran) : i # j => ran[i] # ran[j]
@@ -147,17 +210,18 @@ Accounted ==        \* every trigger is exactly one of: still registered, remove
 
 PhaseOrder ==       \* within a firing: before, then during, then after; registration order inside a phase
     \A i, j \in 1..Len(cur) : i < j =>
-        \/ PhaseNo(cur[i]) < PhaseNo(cur[j])
-        \/ (PhaseNo(cur[i]) = PhaseNo(cur[j]) /\ cur[i] < cur[j])
+        \/ PhaseOf(cur[i]) < PhaseOf(cur[j])
+        \/ (PhaseOf(cur[i]) = PhaseOf(cur[j]) /\ cur[i] < cur[j])
 
 DeferredGate ==     \* no during/after trigger runs while a before-trigger's Deferred is unfired
     /\ (state = "Waiting") = (pend # {})
     /\ pend # {} => \A i \in 1..Len(cur) : phase[cur[i]] = "before"
-    /\ pend \subseteq {id \in Range(cur) : kind[id] = "defer" /\ phase[id] = "before"}
+    /\ pend \subseteq {id \in Range(cur) : kind[id].ret = "defer" /\ phase[id] = "before"}
 
-Complete ==         \* a finished firing leaves no during/after trigger behind; a fire call no before-trigger
-    /\ (last.e \in {"fire", "fired"} /\ last.fin) => (state = "Base" /\ during = <<>> /\ after = <<>>)
-    /\ last.e = "fire" => before = <<>>
+Complete ==         \* a finished firing leaves behind only triggers registered, during it, for a phase already over
+    /\ (last.e \in {"fire", "fired"} /\ last.fin) =>
+           (state = "Base" /\ (Range(during) \cup Range(after)) \subseteq last.late)
+    /\ last.e = "fire" => Range(before) \subseteq last.late
 
 Inv == ExactlyOnce /\ OnlyRemaining /\ Accounted /\ PhaseOrder /\ DeferredGate /\ Complete
 =============================================================================
